@@ -648,6 +648,8 @@ def c13(res, tier, rng, wd):
     run_rtu_task(res, "C13", e1.gen_rtu_task_random(rng, 1500 if tier == "thorough" else 200), wd, "c13rtuserver")
     # black-box: the TLS channel against a peer that accepts TCP and never starts the handshake
     run_e4(res, "C13", e4.gen_tls_client_stall(), wd, "c13tlsstall")
+    # black-box: the plain TCP channel task on real sockets, a command handed in while it is held in each state
+    run_e4(res, "C13", e4.gen_tcp_client_lifecycle(), wd, "c13tcpblackbox")
     res.assumptions = E2_ASSUME + ["the production TcpChannelTask obtains its connections from the verif-hooks connector "
                                    "(same select! against fail_requests) and the production SerialChannelTask opens its port through the verif-hooks "
                                    "port opener; real sockets are exercised by the black-box slice"]
